@@ -55,7 +55,7 @@ def match_finding(findings, prop, sig):
 class Check:
     """Bookkeeping for one run of one property's check."""
 
-    def __init__(self, prop, level='model_checking'):
+    def __init__(self, prop, level='model_checking', clean=True):
         self.prop = prop
         self.level = level
         self.tier = tier()
@@ -70,7 +70,7 @@ class Check:
         self.extra = {}
         self.machinery_errors = []
         # replay files of earlier runs of this property are stale
-        if os.path.isdir(REPLAY):
+        if clean and os.path.isdir(REPLAY):
             for name in os.listdir(REPLAY):
                 if name.startswith(prop + '-'):
                     os.remove(os.path.join(REPLAY, name))
@@ -164,3 +164,15 @@ def lap(label, _state={'t': None}):
     if os.environ.get('VT4_TIMING') and _state['t'] is not None:
         print('[timing] %-28s %.1fs' % (label, now - _state['t']), file=sys.stderr)
     _state['t'] = now
+
+
+NB = 64
+
+
+def write_blocks(dirpath, traces, nb=NB):
+    """One JSON file per validation block (read in parallel by the TLC workers)."""
+    blocks = [[] for _ in range(nb)]
+    for i, t in enumerate(traces):
+        blocks[i % nb].append(t)
+    for b, blk in enumerate(blocks):
+        write_json(os.path.join(dirpath, 'b%d.json' % (b + 1)), blk)
